@@ -47,7 +47,8 @@ def build_harness(config="plain", extra_ldflags=()):
         return o
     with ThreadPoolExecutor(16) as ex:
         objs = [o for o in ex.map(cc1, srcs) if o]
-    cmd = [cc] + cflags + objs + [os.path.join(libdir, "libsafec.a"), "-lffi", "-lpthread", "-lm", "-ldl", "-Wl,--wrap=malloc,--wrap=calloc,--wrap=realloc,--wrap=free,--wrap=ignore_handler_s", "-o", out] + list(extra_ldflags)
+    libargs = [os.path.join(libdir, "libsafec.a")] if config != "shared" else ["-L" + libdir, "-lsafec", "-Wl,-rpath," + libdir]
+    cmd = [cc] + cflags + objs + libargs + ["-lffi", "-lpthread", "-lm", "-ldl", "-Wl,--wrap=malloc,--wrap=calloc,--wrap=realloc,--wrap=free,--wrap=ignore_handler_s", "-o", out] + list(extra_ldflags)
     r = subprocess.run(cmd, capture_output=True, text=True)
     if r.returncode != 0:
         raise RuntimeError("harness link failed:\n" + r.stderr)
